@@ -23,6 +23,7 @@ from ..cfg import cfg_of
 from ..flow import Sym, fpaths, attr_effects
 from ..model import FuncInfo, attr_chain, norm, walk_no_nested
 from ..report import Checker
+from .common import idle_predicate_check
 
 HASBUF = 'self.work.has_buffer()'
 
@@ -258,28 +259,7 @@ def run(ch: Checker) -> None:
     ch.check(okf, 'C07.3', fl, 'while has_buffer: flush', '_flush loops until the buffer is empty', '_flush no longer loops `while self.work.has_buffer()` around self.work.flush()')
 
     # ---------------- C07.4
-    ia = prog.own_method('HttpProtocolHandler', 'is_inactive')
-    gi = cfg_of(ia, prog)
-    bad4 = None
-    n4 = 0
-    for p in fpaths(gi):
-        if p.exit_kind != 'return':
-            continue
-        last = p.stmts()[-1]
-        if isinstance(last[1], ast.Return) and last[1].value is not None:
-            v = Sym(p).value(last[1].value, last[0])
-            if isinstance(v, ast.Constant) and not v.value:
-                continue
-            n4 += 1
-            if isinstance(v, ast.Constant) and v.value is True:
-                if dict(p.facts()).get(HASBUF) is not False:
-                    bad4 = ('is_inactive() reports an idle connection without requiring an empty client buffer: the reaper closes connections with undelivered output', p.describe())
-            else:
-                # boolean expression: must contain `not has_buffer()` as a conjunct
-                txt = norm(v).replace(' ', '')
-                if 'notself.work.has_buffer()and' not in txt and not txt.endswith('andnotself.work.has_buffer()'):
-                    bad4 = ('is_inactive() returns %s, which does not require an empty client buffer' % norm(v)[:80], p.describe())
-    ch.check(bad4 is None and n4 >= 1, 'C07.4', ia, 'idle predicate', 'idle only with an empty buffer', bad4[0] if bad4 else 'is_inactive never returns True', witness=bad4[1] if bad4 else None)
+    idle_predicate_check(ch, 'C07.4')
     allowed = {'Threadless._run_once', 'Threadless._cleanup_inactive', 'ThreadlessFdExecutor.work', 'Threadless._update_selector'}
     callers = set()
     thr = prog.class_named('Threadless')
